@@ -141,8 +141,15 @@ class Model:
             env[pname] = a
         if fn.node.args.vararg is not None:
             env[fn.node.args.vararg.arg] = tuple(args[len(params):])
+        named = set(params) | {a.arg for a in fn.node.args.kwonlyargs}
+        extra_kw: Dict[str, object] = {}
         for k, v in (kwargs or {}).items():
-            env[k] = v
+            if fn.node.args.kwarg is not None and k not in named:
+                extra_kw[k] = v  # collected by `**kwargs`
+            else:
+                env[k] = v
+        if fn.node.args.kwarg is not None:
+            env[fn.node.args.kwarg.arg] = extra_kw
 
         def default_value(d: ast.expr) -> object:
             try:
@@ -183,8 +190,12 @@ class Model:
                 head = e.func if isinstance(e.func, ast.Name) else (e.func.value if isinstance(e.func, ast.Attribute) and isinstance(e.func.value, ast.Name) else None)
                 if head is not None:
                     hv = env2.get(head.id)
+                    from sa.consteval import ClassRef as _CR0
+
                     if isinstance(hv, ClassModel):
                         target_cls = hv.cls
+                    elif isinstance(hv, _CR0) and hv.cls.module.name.startswith("jsonpath"):
+                        target_cls = hv.cls.qualname  # a class taken from a table of classes
                     elif head.id not in env2:
                         try:
                             gv = self.ctx.folder.global_value(fn.module, head.id)
@@ -210,7 +221,7 @@ class Model:
 
                         if isinstance(gv2, _CR2) and gv2.cls.module.name.startswith("jsonpath"):
                             target_cls = gv2.cls.qualname
-                if target_cls is not None and not any(isinstance(x, ast.Starred) for x in e.args) and all(k.arg for k in e.keywords):
+                if target_cls is not None and not any(isinstance(x, ast.Starred) for x in e.args):
                     kwc = kwargs_of(e, env2)
                     info = self.ctx.repo.require_class(target_cls)
                     if via_class_method is None:
@@ -524,6 +535,14 @@ def parse_bracketed(ctx: Ctx, rule: str, text: str, env_fields: Optional[Dict[st
     token); RAISES when the parser refuses the text; None when the execution cannot be followed."""
     from .common import callee_name
 
+    # read off the result first (the selectors' own constructors run; sound however the parser reaches them); the
+    # record of constructor calls *by name* below is the fallback for a result that cannot be read
+    try:
+        by_result = parse_bracketed_items(ctx, rule, text, env_fields)
+    except AnalysisError:
+        by_result = None
+    if by_result is not None:
+        return by_result
     got: List[Tuple[str, Dict[str, object]]] = []
     model: Model
 
@@ -556,6 +575,48 @@ def parse_bracketed(ctx: Ctx, rule: str, text: str, env_fields: Optional[Dict[st
     if stream.pos < len(stream.toks) - 1:
         return None  # tokens left unread: not one bracketed selection
     return got
+
+
+def parse_bracketed_items(ctx: Ctx, rule: str, text: str, env_fields: Optional[Dict[str, object]] = None) -> object:
+    """The same, read off the *result*: the parser and the selectors' own constructors are executed, and the items of the
+    list selector that comes back are reported as (class name, what the constructor stored) - whichever way the parser
+    gets to the constructors (by name, through a table of classes, through a helper that is handed the class)."""
+    model = Model(ctx, rule)
+    model.whole_bodies = model.auto_construct = True
+    toks = [(k, v) for _r, k, v in ctx.lexer.tokens_of(text)]
+    if any(k == "<ILLEGAL>" for k, _v in toks):
+        return RAISES
+    stream = StreamModel(model, toks, text)
+    fields: Dict[str, object] = {"unicode_escape": True, "max_int_index": 2**53 - 1, "min_int_index": -(2**53) + 1, "well_typed": True}
+    fields.update(env_fields or {})
+    env_obj = MObj(model, "jsonpath.env.JSONPathEnvironment", fields)
+    parser = MObj(model, "jsonpath.parse.Parser", {"env": env_obj})
+    try:
+        r = model.call(parser, "parse_selector_list", [stream])
+    except AnalysisError:
+        return None
+    if r is RAISES:
+        return RAISES
+    if r is UNKNOWN or not isinstance(r, MObj) or stream.pos < len(stream.toks) - 1:
+        return None
+    items = r.fields.get("items", UNKNOWN)
+    if not isinstance(items, (tuple, list)):
+        return None
+    out: List[Tuple[str, Dict[str, object]]] = []
+    for it in items:
+        if not isinstance(it, MObj):
+            return None
+        name = it.cls.split(".")[-1]
+        kws = {k: v for k, v in it.fields.items() if k not in ("env", "token") and not k.startswith("_")}
+        sl = kws.pop("slice", None)
+        if isinstance(sl, slice):
+            kws.update(start=sl.start, stop=sl.stop, step=sl.step)
+        elif sl is not None:
+            return None
+        if any(v is UNKNOWN for v in kws.values()):
+            return None
+        out.append((name, kws))
+    return out
 
 
 def run_selector(ctx: Ctx, rule: str, cname: str, mname: str, fields: Dict[str, object], doc: object,
@@ -604,9 +665,21 @@ def run_selector(ctx: Ctx, rule: str, cname: str, mname: str, fields: Dict[str, 
         r = hook(e, a, env, ex)
         if r is not None:
             return r
-        if isinstance(e.func, ast.Name) and e.func.id not in env and e.func.id in fn.module.functions:
+        target_fn = fn.module.functions.get(e.func.id) if isinstance(e.func, ast.Name) and e.func.id not in env else None
+        if target_fn is None and isinstance(e.func, ast.Name) and e.func.id not in env:
+            # a helper imported from another module of the package (maybe under another name)
+            from sa.consteval import FuncRef as _FR
+            from sa.consteval import NotConst as _NC
+
+            try:
+                gv = ctx.folder.global_value(fn.module, e.func.id)
+            except (_NC, AnalysisError):
+                gv = None
+            if isinstance(gv, _FR) and gv.func.cls is None and gv.func.module.name.startswith("jsonpath"):
+                target_fn = gv.func
+        if target_fn is not None:
             kwf = {k.arg: ex.value(k.value, env) for k in e.keywords if k.arg}
-            rf = model.call_function(fn.module.functions[e.func.id], list(a), kwf)
+            rf = model.call_function(target_fn, list(a), kwf)
             if rf is RAISES:
                 raise _PathRaises(model.last_raised or "callee raises")
             return RETURNS_NONE if rf is None else rf
